@@ -318,7 +318,7 @@ pub fn gen(rng: &mut crate::prng::Rng, quick: bool) -> RefArchive {
 
 pub fn run(cx: &mut Ctx) {
     cx.require(REQUIRED);
-    cx.rule = "cases = directed contents + random contents (C01 domain without c-strings, biased to ordering corner cases); each content is built through the public API in P different call orders (fresh hash maps each), every image must be byte-identical, equal to the reference writer's canonical image, and reproduced by parse->serialize; in mode 'det' the same contents are rebuilt in >=8 fresh processes and image digests compared by the supervisor. non-trivial = content with >=2 labels and >=2 string cells; distinct by content hash".into();
+    cx.rule = "cases = directed contents + random contents (C01 domain without c-strings, biased to ordering corner cases); each content is built through the public API in P different call orders (fresh hash maps each), every image must be byte-identical, equal to the reference writer's canonical image, and reproduced by parse->serialize; in mode 'det' the same contents are rebuilt in >=8 fresh processes and image digests compared by the supervisor. non-trivial = content with >=2 labels and >=2 string cells; threshold contents as in C01 (table sizes, text beyond 64 KiB); every serialize is repeated under a second heap poison byte; distinct by content hash".into();
     let det = cx.a.mode == "det";
     let builds = if cfg!(miri) { 3 } else if cx.a.quick() { 4 } else { 12 };
     for (name, m) in directed() {
